@@ -94,7 +94,8 @@ Record st := mkst {
   srvq : list Z;
   nresp : Z;       (* ghost: number of calls received (handler invocations) *)
   kabs : kst;      (* ghost: state of the abstract keep-alive semantics, run in lockstep (C05) *)
-  kenv : bool;     (* ghost: the environment hypotheses kenv_ok held for every abstract event of the current episode *)
+  kenv : bool;     (* ghost: the EXTERNAL hypotheses kext_ok held for every abstract event of the current episode, which began
+                      with a frame sent at most T-3 s earlier (H_fresh) *)
   ktmo : Z         (* ghost: timeout of the current episode *)
 }.
 
@@ -165,11 +166,11 @@ Definition uptime (s : st) : Z := u32 (uptime_usec s / 1000 / 1000).
 
 (* ghost: the abstract keep-alive semantics run in lockstep (does not influence any output) *)
 Definition k_event (e : kev) (s : st) : st :=
-  set_kabs (kstep (ktmo s) (kabs s) e) (set_kenv (kenv s && kenv_ok (ktmo s) (kabs s) e) s).
+  set_kabs (kstep (ktmo s) (kabs s) e) (set_kenv (kenv s && kext_ok (ktmo s) (kabs s) e) s).
 Definition k_reset (s : st) : st :=      (* a new episode starts when the registration is accepted / a timeout is granted *)
   let up := uptime s in
   set_ktmo (actto s) (set_kabs (kinit up (lastsent s))
-    (set_kenv ((0 <=? lastsent s) && (lastsent s <=? up) && (up <? 4294967296) && (up - lastsent s <=? actto s - 3)) s)).
+    (set_kenv (up - lastsent s <=? actto s - 3) s)).
 
 (* os_timer_arm (ets_timer_arm_new with ms=1) / os_timer_disarm *)
 Definition arm (i : tid) (ms : Z) (rep : bool) (s : st) : st :=
